@@ -24,6 +24,7 @@ writer puts a changeset into whatever section happens to be open.
 import Osmium.Lemmas.OplFmtCs
 import Osmium.Lemmas.OplSpecFile2
 import Osmium.Lemmas.XmlFmtCsFile
+import Osmium.Generated.Consts
 
 namespace Osmium.C01Text
 open Osmium.Osm Osmium.TextFmt Osmium.Conv
@@ -437,5 +438,11 @@ theorem xml_header_bounds_valid_identity (bl tr : Location) (h1 : valid bl = tru
   rw [f1, f2]
 
 example : valid ⟨-1800000000, -900000000⟩ = true ∧ valid ⟨1800000000, 900000000⟩ = true := by decide
+
+/-- Tie of the text-format models' constants to the CURRENT source (regenerated
+    `Generated/Consts.lean`). -/
+theorem consts_tie_text :
+    Osmium.OplFmt.maxString = Osmium.Generated.Consts.maxOsmStringLength ∧ Osmium.Generated.Consts.oplHexMaxLength * 4 = 8 ∧
+    Osmium.Generated.Consts.coordinatePrecision = 10000000 ∧ (Osmium.Generated.Consts.undefinedCoordinate : Int) = Osmium.Osm.Location.undefinedCoordinate := by decide
 
 end Osmium.C01Text
